@@ -494,7 +494,13 @@ main(void)
     F[0].v.shape.dims.width = 8; F[0].v.shape.dims.height = 1; F[0].v.shape.type = SampleType_u8;
     memcpy(packet, &F[0], sizeof F[0]);
     int starts = 0, failed_appends = 0;
+#ifdef LIFE_MASK
+    /* which of the optional calls execute is fixed per harness instance (bit i = i-th optional call) */
+    int opt_i = 0;
+#define OPT if ((LIFE_MASK >> opt_i++) & 1)
+#else
 #define OPT if (ND(bool_t))
+#endif
 #define CHK VASSERT(bad_ops == 0, "C16: write/close on a descriptor the device does not own (not open, or already closed)")
 #define DO_APPEND do { \
         int e0 = write_errors; enum DeviceState s0 = storage_get_state(dev); \
@@ -517,8 +523,10 @@ main(void)
     VASSERT(destroyed == 1, "close did not destroy the device exactly once");
     CHK;
     VASSERT(!is_open && n_close == n_create, "C16: a descriptor the device opened was not closed exactly once");
+#ifndef LIFE_MASK
     COVER(failed_appends >= 1);
     COVER(starts == 1 && n_write >= 4 && write_errors == 0);
+#endif
     WITNESS_END();
 #endif
     return 0;
